@@ -181,48 +181,23 @@ theorem interface_key_collision_rejected (tns : Text) (a b : Method) (l1 l2 l3 :
   cases h : build facts11 tns (l1 ++ a :: l2 ++ b :: l3) with
   | error e => exact ⟨e, rfl⟩
   | ok r =>
-    exfalso
-    have v := ((accepted_iff_valid tns _).mp ⟨r, h⟩).ifaces
-    simp only [List.append_assoc, List.map_append, List.map_cons, List.nodup_append, List.nodup_cons,
-      List.mem_append, List.mem_cons, List.mem_map] at v
-    exact v.2.1.1 (Or.inr (Or.inl hk))
+    exact absurd hk (nodup_map_ne ifaceKey a b l1 l2 l3 ((accepted_iff_valid tns _).mp ⟨r, h⟩).ifaces)
 
 /-! ### the public name of a method (decorator) -/
 
 theorem public_name_default (d : MethodDecl) (h1 : d.opName = none) (h2 : d.inMsg = none)
     (h3 : d.func.head? ≠ some '{') : resolveIn facts11 d = .ok (none, d.func) := by
-  have : splitBrace d.func = (none, d.func) := by
-    unfold splitBrace; split
-    · rename_i r h; rw [h] at h3; simp at h3
-    · rfl
-  simp [resolveIn, h1, h2, facts11, this]
+  simp [resolveIn, h1, h2, facts11, splitBrace_plain d.func h3]
 
 theorem public_name_operation (d : MethodDecl) (o : Text) (h1 : d.opName = some o) (h2 : d.inMsg = none)
     (h3 : o.head? ≠ some '{') : resolveIn facts11 d = .ok (none, o) := by
-  have : splitBrace o = (none, o) := by
-    unfold splitBrace; split
-    · rename_i r h; rw [h] at h3; simp at h3
-    · rfl
-  simp [resolveIn, h1, h2, facts11, this]
+  simp [resolveIn, h1, h2, facts11, splitBrace_plain o h3]
 
 /-- `_in_message_name='{ns}local'`: the method answers to `local` (in the application's namespace) -/
 theorem public_name_in_message (d : MethodDecl) (ns l : Text) (h1 : d.opName = none)
     (h2 : d.inMsg = some (qname ns l)) (h3 : '}' ∉ ns) (h4 : qname ns l ≠ d.func) :
     resolveIn facts11 d = .ok (some ns, l) := by
-  have hs : splitBrace (qname ns l) = (some ns, l) := by
-    simp only [splitBrace, qname]
-    have ht : ∀ (xs : Text), '}' ∉ xs → (xs ++ '}' :: l).takeWhile (· ≠ '}') = xs ∧
-        (xs ++ '}' :: l).dropWhile (· ≠ '}') = '}' :: l := by
-      intro xs hx
-      induction xs with
-      | nil => simp
-      | cons x xs ih =>
-        simp at hx
-        have hx1 : x ≠ '}' := fun e => hx.1 e.symm
-        have := ih (fun h => hx.2 h)
-        simp [hx1, this.1, this.2]
-    rw [(ht ns h3).1, (ht ns h3).2]; rfl
-  simp [resolveIn, h1, h2, h4, hs]
+  simp [resolveIn, h1, h2, h4, splitBrace_qname ns l h3]
 
 /-! ### HTTP: URL paths and HttpPatterns -/
 
@@ -263,7 +238,7 @@ theorem literal_address_exact (s path : Text) : addrMatches (lits s) path = true
 /-- D32: with `val.insert(method, 0)` an auxiliary service listed before the primary one makes the
     construction fail, the other order is accepted -/
 theorem aux_first_witness (F : Facts11) (h : F.auxFirst = .typeError) (a x : Method)
-    (ha : a.aux = false) (hx : x.aux = true) (hn : a.name = x.name) (hk : ifaceKey a ≠ ifaceKey x)
+    (ha : a.aux = false) (hx : x.aux = true) (hn : x.name = a.name) (hk : ifaceKey a ≠ ifaceKey x)
     (hi : internalKey a ≠ internalKey x) (hc : qname (a.inNs.getD []) a.name ≠ qname (a.outNs.getD []) a.outName) :
     build F [] [x, a] = .error .typeError ∧ ∃ r, build F [] [a, x] = .ok r := by
   have hk' : ifaceKey x ≠ ifaceKey a := fun e => hk e.symm
@@ -297,8 +272,8 @@ example : (match build facts11 "tns".toList [mX, mA, mB] with
 example : (match build facts11 "tns".toList [mX, mA, mB] with
     | .ok r => serve facts11 r "tns".toList (.tag (some "other".toList) "foo".toList) | .error _ => .stuck) = .notFound := by decide
 /-- two primaries for one name (the in-messages live in different namespaces, so only `process_method` sees it) -/
-example : build facts11 "tns".toList [mA, mC] = .error .valueError := by decide
-example : build facts11 "tns".toList [mC, mX, mA] = .error .valueError := by decide
+example : (match build facts11 "tns".toList [mA, mC] with | .ok _ => none | .error e => some e) = some .valueError := by decide
+example : (match build facts11 "tns".toList [mC, mX, mA] with | .ok _ => none | .error e => some e) = some .valueError := by decide
 example : Clash mA mC := by decide
 example : requestKey facts11 "tns".toList (.path "/x/y/foo".toList) = "{tns}foo".toList := by decide
 example : choosePattern [⟨none, "/a/<x>".toList, "p".toList, 1⟩, ⟨none, "/a/b".toList, "q".toList, 2⟩]
